@@ -94,6 +94,35 @@ pub fn run(build: &str, corpus_dir: &str, behaviour_files: &[String], trace: &mu
         }
         trace.push(&rec);
     }
+    // the directory entry points on files of every kind of NAME (eligible or not, short and long, multi-byte characters at
+    // every distance from either end): a name is never a reason to abort
+    let mut names: Vec<String> = vec![];
+    for ext in [".sol", ".t.sol", ".txt", ".s.sol", ""] {
+        for stem in ["A", "\u{e9}", "\u{8a9e}", "\u{1f600}", "\u{5408}\u{7ea6}", "\u{f6}A", "A\u{f6}", "a\u{8a9e}", "ab\u{8a9e}", "abc\u{1f600}", "\u{8a9e}\u{8a9e}\u{8a9e}", "x.y", ".", ".."] {
+            let n = format!("{}{}", stem, ext);
+            if n != "." && n != ".." && !n.is_empty() {
+                names.push(n);
+            }
+        }
+    }
+    for pad in [40usize, 44, 45, 46, 47, 48, 60, 120, 200] {
+        for tail in ["\u{e9}.sol", "\u{8a9e}.txt", "\u{1f600}.t.sol"] {
+            names.push(format!("{}{}", "n".repeat(pad), tail));
+        }
+    }
+    for name in names {
+        let m = crate::detectors::run_all_via_dir_named(crate::dirs::C1, &name);
+        let mut bad = vec![];
+        let mut n_ok = 0;
+        for (d, r) in m.iter() {
+            match r {
+                Ok(_) => n_ok += 1,
+                Err(e) => bad.push(json!({"d": d, "why": format!("panic:{}", classify(e))})),
+            }
+        }
+        out.evaluations += 1;
+        trace.push(&json!({"k": "total", "build": build, "src": format!("file-name:{}", name), "bad": bad, "detectors": n_ok, "results": {}}));
+    }
     out.set("generated_trees_failed", json!(failed));
 }
 
